@@ -5,6 +5,7 @@ import Driver.RunDrv
 import Driver.LoopDrv
 import Driver.ParseDrv
 import Driver.TopoDrv
+import Driver.GraphDrv
 open Pushr
 
 def handleLine (line : String) : String :=
@@ -12,6 +13,7 @@ def handleLine (line : String) : String :=
   | some [.list (.atom kind :: rest)] =>
     match kind with
     | "stackop" => StackDrv.handle rest
+    | "graphseq" => GraphDrv.handle rest
     | "topo" => TopoDrv.handle rest
     | "parse" => ParseDrv.handleParse rest
     | "roundtrip" => ParseDrv.handleRoundtrip rest
